@@ -14,7 +14,7 @@ CLAIMS = {
   note="trusted: reflect.Value accessor/setter specs, double-rounding and narrow-division lemmas, xreflect.Type.Kind purity, go/ssa front end, SMT solvers. The dispatch of setVar / setPlace is under contract (each compile function is reached only under its own operator; no Go assignment operator with compatible operands ends in a compile error). Not covered (no contract): the closures for places other than variables (place_*.go) and for shift-assignments, varQuoPow2, multi-assignment ordering (assign2/assignMulti), IncDec, non-basic kinds of varSet* (closure partial), composition with the rest of the program",
   ref="DESIGN.md section 5 C02"),
  "C05": dict(
-  text="the control-transfer closure shared by break, continue and goto (Comp.jumpOut: depth 0, 1, 2 and the generic loop) is proved to leave exactly upn frames, to continue at the statement index the label holds when the jump runs, in that frame, and to change nothing else - for all environments; Comp.Goto is proved to find a label declared in the scope of the goto or in a scope around it up to and including the function's own (stated up to two scopes out, loop verified for any depth) and never to end in 'label not found' for such a label",
+  text="the control-transfer closure shared by break, continue and goto (Comp.jumpOut: depth 0, 1, 2 and the generic loop) is proved to leave exactly upn frames, to continue at the statement index the label holds when the jump runs, in that frame, and to change nothing else - for all environments; Comp.Goto is proved to find a label declared in the scope of the goto or in a scope around it up to and including the function's own (stated up to two scopes out, loop verified for any depth) and never to end in 'label not found' for such a label; the closures of range-over-string are proved (frame-only contract) to write nothing but the hidden position variable, the statement index and the destination of the rune in the frame it lives in, the direct store being chosen only for an int32 slot of Env.Ints",
   note="trusted: go/ssa front end, SMT solvers, frame-chain model (up()). Not covered: every other control construct (if/for/switch/select/range layout and closures, label resolution of break/continue, jump tables), forward goto (documented limitation), composition into programs",
   ref="DESIGN.md section 0.1, section 5 C05"),
  "C06": dict(
